@@ -470,8 +470,7 @@ func checkTree(v Val, pv px.Value, ctx px.FormatContext, o Obs, depth int, fs *[
 					o2 = classify(r)
 				}
 			}()
-			// keyed by Any: the re-rendering must apply ds2 whatever the value's own type accepts (Float[NaN,NaN]
-			// does not accept itself, see the finding nan-directive-ignored)
+			// keyed by Any: the re-rendering must apply ds2 whatever the value's own type accepts
 			return renderPx(pv, px.NewFormatContext(types.DefaultAnyType(), px.NewFormat(ds2), ctx.Indentation()))
 		})
 		*fs = append(*fs, sub...)
